@@ -259,7 +259,11 @@ func c14Case(tier string, seed int64, idx int, scratch string) rt.CaseResult {
 	} else {
 		more = append(more, seqrun.Step{Op: "rollback", Actor: 9000})
 	}
-	more = append(more, seqrun.Step{Op: "begin", Actor: 9001, Level: 2}, seqrun.Step{Op: "set", Actor: 9001, Key: txKeys[0], Tag: fmt.Sprintf("h%d-left-open", idx), Len: 50}, seqrun.Step{Op: "reopen", Actor: -1})
+	more = append(more, seqrun.Step{Op: "begin", Actor: 9001, Level: 2}, seqrun.Step{Op: "set", Actor: 9001, Key: txKeys[0], Tag: fmt.Sprintf("h%d-left-open", idx), Len: 50},
+		// ... and a key that has never had a committed version
+		seqrun.Step{Op: "set", Actor: 9001, Key: fmt.Sprintf("brand-new-%d", idx), Tag: fmt.Sprintf("h%d-left-open-new", idx), Len: 50},
+		seqrun.Step{Op: "create", Actor: 9001, Key: fmt.Sprintf("brand-new-too-%d", idx), Tag: fmt.Sprintf("h%d-left-open-new2", idx), Len: 5000, Pieces: []int{100}},
+		seqrun.Step{Op: "reopen", Actor: -1})
 	for i, s := range more {
 		if m := r.Do(len(steps)+1+i, s); m != nil {
 			replay["phase2_steps"] = more
